@@ -125,5 +125,15 @@ TEXT = {
                 "frozen at zero and only have to be harmless",
         "technique": "runtime monitoring: invariant oracles on the returned factorisation against the reference matrix and a reference Krylov basis",
     },
+    "C15": {
+        "level": "Held on the executions observed: generated square operators x start vectors (generic, invariant-subspace, default, "
+                 "batched) x iteration caps below/at/beyond n x tolerances; Q, H judged for shapes, first column, Hessenberg pattern, "
+                 "Arnoldi relation, orthonormality (bound c*eps*kappa/rho_m while the Krylov space is not exhausted), zero padding, "
+                 "equality with the n-step run, and arnoldi_eigs against the reference spectrum.",
+        "note": _NOTE + "; beyond exhaustion (breakdown) no further orthonormal Krylov vectors exist, extra columns only have to be "
+                "harmless; for m > n the Arnoldi relation is judged on the n columns of the n-step factorisation; eigenvector "
+                "accuracy of arnoldi_eigs is recorded, not judged (C10 judges eigenpairs)",
+        "technique": "runtime monitoring: invariant oracles on the returned factorisation against the reference matrix, reference minimal residual and reference spectrum",
+    },
 }
 NOT_APPLICABLE = {}
